@@ -513,6 +513,446 @@ fn ofzs(o: &Option<Vec<f64>>) -> String {
     }
 }
 
+// ------------------------------------------------------------- LARGE cases
+// Thousands of vertices, sizes at and around block / split boundaries
+// (1024, 2048, 4096): an implementation that processes rows or elements in
+// chunks and mishandles a chunk boundary agrees with the definition on every
+// small input.  Rows are written for Coq as (offset from the row index, weight).
+
+const BIG_N: [usize; 15] = [
+    1023, 1024, 1025, 1026, 2047, 2048, 2049, 2050, 4095, 4096, 4097, 4098, 4099, 4100, 5000,
+];
+/// (w, h) with w*h at and around the boundaries, small w (the stride of the second axis)
+const BIG_WH: [(usize, usize); 14] = [
+    (33, 31),  // 1023
+    (32, 32),  // 1024
+    (41, 25),  // 1025
+    (38, 27),  // 1026
+    (23, 89),  // 2047
+    (64, 32),  // 2048
+    (3, 683),  // 2049
+    (50, 41),  // 2050
+    (65, 63),  // 4095
+    (64, 64),  // 4096
+    (17, 241), // 4097
+    (6, 683),  // 4098
+    (50, 82),  // 4100
+    (50, 100), // 5000
+];
+const BIG_WHD: [(usize, usize, usize); 6] = [
+    (16, 16, 4),  // 1024
+    (11, 31, 3),  // 1023
+    (5, 5, 41),   // 1025
+    (16, 16, 8),  // 2048
+    (16, 16, 16), // 4096
+    (17, 17, 15), // 4335
+];
+const BOUNDARIES: [usize; 9] = [1022, 1023, 1024, 1025, 2047, 2048, 2049, 4095, 4096];
+
+fn big_n(r: &mut Rng) -> usize {
+    if r.chance(1, 6) {
+        r.range(1500, 5200) as usize
+    } else {
+        *r.pick(&BIG_N)
+    }
+}
+
+/// partitions that cut edges at and around the boundary rows
+fn big_partition(r: &mut Rng, n: usize, k: usize) -> (String, Vec<usize>) {
+    let bs: Vec<usize> = BOUNDARIES.iter().cloned().filter(|b| *b < n).collect();
+    match r.below(7) {
+        0 => ("alternating".into(), (0..n).map(|v| v % 2 % k).collect()),
+        1 => ("round_robin".into(), (0..n).map(|v| v % k).collect()),
+        2 if !bs.is_empty() => {
+            // the only part change is between rows b-1 and b
+            let b = *r.pick(&bs);
+            ("single_cut_at_boundary".into(), (0..n).map(|v| if v >= b { k - 1 } else { 0 }).collect())
+        }
+        3 if !bs.is_empty() => {
+            // only the boundary rows themselves are in another part
+            ("boundary_rows_only".into(), (0..n).map(|v| if bs.contains(&v) { k - 1 } else { 0 }).collect())
+        }
+        4 => {
+            let blk = *r.pick(&[512usize, 1024, 1000, 1025]);
+            ("blocks".into(), (0..n).map(|v| (v / blk) % k).collect())
+        }
+        5 => {
+            // uniform background, a window of random parts around every boundary
+            let mut p = vec![0usize; n];
+            for b in &bs {
+                for v in b.saturating_sub(3)..(*b + 4).min(n) {
+                    p[v] = r.below(k as u64) as usize;
+                }
+            }
+            ("random_near_boundaries".into(), p)
+        }
+        _ => ("uniform".into(), (0..n).map(|_| r.below(k as u64) as usize).collect()),
+    }
+}
+
+fn big_vweights(r: &mut Rng, n: usize) -> Vec<i64> {
+    match r.below(4) {
+        0 => vec![1; n],
+        1 => (0..n).map(|v| 1 + (v % 7) as i64).collect(),
+        2 => (0..n).map(|v| if BOUNDARIES.contains(&v) { 1000 } else { 0 }).collect(),
+        _ => (0..n).map(|_| r.range(0, 1000)).collect(),
+    }
+}
+
+/// sparse rows, symmetric unless stated, strictly increasing indices
+fn big_rows(r: &mut Rng, n: usize) -> (String, Vec<Vec<(usize, i64)>>) {
+    let mut rows: Vec<std::collections::BTreeMap<usize, i64>> = vec![Default::default(); n];
+    let wstyle = r.below(3);
+    let mut ew = |r: &mut Rng, v: usize| -> i64 {
+        match wstyle {
+            0 => 1,
+            1 => 1 + (v % 5) as i64,
+            _ => r.range(1, 1000),
+        }
+    };
+    let fam = r.below(5);
+    let name = match fam {
+        0 | 1 => {
+            for v in 1..n {
+                let w = ew(r, v);
+                rows[v].insert(v - 1, w);
+                rows[v - 1].insert(v, w);
+            }
+            if fam == 1 && n > 2 {
+                let w = ew(r, 0);
+                rows[0].insert(n - 1, w);
+                rows[n - 1].insert(0, w);
+                "big_ring"
+            } else {
+                "big_path"
+            }
+        }
+        2 => {
+            // random sparse, banded (offsets up to 40), symmetric
+            for v in 1..n {
+                for _ in 0..r.below(3) {
+                    let d = r.range(1, 40) as usize;
+                    if d <= v {
+                        let w = ew(r, v);
+                        rows[v].insert(v - d, w);
+                        rows[v - d].insert(v, w);
+                    }
+                }
+            }
+            "big_random_sparse"
+        }
+        3 => {
+            // random sparse, unsymmetric (entries on one side only, either side)
+            for v in 0..n {
+                for _ in 0..r.below(3) {
+                    let d = r.range(1, 40) as usize;
+                    if r.chance(2, 3) {
+                        if d <= v {
+                            let w = ew(r, v);
+                            rows[v].insert(v - d, w);
+                        }
+                    } else if v + d < n {
+                        let w = ew(r, v);
+                        rows[v].insert(v + d, w);
+                    }
+                }
+            }
+            "big_random_sparse_unsymmetric"
+        }
+        _ => "big_lattice",
+    };
+    if name == "big_lattice" {
+        let (w, h) = *r.pick(&BIG_WH);
+        return (name.to_string(), lattice_rows_fast(&[w, h]));
+    }
+    (name.to_string(), rows.into_iter().map(|m| m.into_iter().collect()).collect())
+}
+
+/// the lattice as a valid sparse matrix in O(n), built without coupe
+fn lattice_rows_fast(dims: &[usize]) -> Vec<Vec<(usize, i64)>> {
+    let n: usize = dims.iter().product();
+    let mut strides = Vec::new();
+    let mut acc = 1usize;
+    for s in dims {
+        strides.push(acc);
+        acc *= s;
+    }
+    (0..n)
+        .map(|v| {
+            let mut row = Vec::new();
+            for a in (0..dims.len()).rev() {
+                if (v / strides[a]) % dims[a] > 0 {
+                    row.push((v - strides[a], 1i64));
+                }
+            }
+            for a in 0..dims.len() {
+                if (v / strides[a]) % dims[a] + 1 < dims[a] {
+                    row.push((v + strides[a], 1i64));
+                }
+            }
+            row
+        })
+        .collect()
+}
+
+fn coq_offset_rows(rows: &[Vec<(usize, i64)>]) -> String {
+    let v: Vec<String> = rows
+        .iter()
+        .enumerate()
+        .map(|(v, r)| {
+            let e: Vec<String> = r
+                .iter()
+                .map(|(u, x)| format!("({},{})", coq_z(*u as i128 - v as i128), coq_z(*x as i128)))
+                .collect();
+            format!("[{}]", e.join(";"))
+        })
+        .collect();
+    format!("[{}]", v.join(";\n"))
+}
+
+fn coq_graph_obs(res: &Guarded<GraphObs>, panics: &mut usize, hangs: &mut usize) -> (String, String) {
+    match res {
+        Guarded::Done(o) => (
+            format!(
+                "(mkGO {} {} {} {} {} {} {} {})",
+                coq_obs_z(&o.csr_cut),
+                coq_obs_z(&o.gen_cut),
+                coq_obs_z(&o.csr_lam),
+                coq_obs_z(&o.gen_lam),
+                coq_obs_fz(&o.csr_cut_f),
+                coq_obs_fz(&o.gen_cut_f),
+                coq_obs_fz(&o.csr_lam_f),
+                coq_obs_fz(&o.gen_lam_f)
+            ),
+            format!(
+                "{{\"csr_cut\":{},\"gen_cut\":{},\"csr_lambda\":{},\"gen_lambda\":{},\"csr_cut_f64\":{},\"gen_cut_f64\":{},\"csr_lambda_f64\":{},\"gen_lambda_f64\":{}}}",
+                json_opt(&o.csr_cut),
+                json_opt(&o.gen_cut),
+                json_opt(&o.csr_lam),
+                json_opt(&o.gen_lam),
+                json_opt(&o.csr_cut_f),
+                json_opt(&o.gen_cut_f),
+                json_opt(&o.csr_lam_f),
+                json_opt(&o.gen_lam_f)
+            ),
+        ),
+        Guarded::Panic(m) => {
+            *panics += 1;
+            (
+                "(mkGO OPanic OPanic OPanic OPanic OPanic OPanic OPanic OPanic)".to_string(),
+                format!("{{\"panic\":{}}}", json_str(m)),
+            )
+        }
+        Guarded::Hang => {
+            *hangs += 1;
+            (
+                "(mkGO OHang OHang OHang OHang OHang OHang OHang OHang)".to_string(),
+                "{\"hang\":true}".to_string(),
+            )
+        }
+    }
+}
+
+/// run-length text of a long array for the JSON side (the Coq side gets it in full)
+fn json_rle(xs: &[i64]) -> String {
+    let mut out: Vec<String> = Vec::new();
+    let mut i = 0;
+    while i < xs.len() {
+        let mut j = i;
+        while j < xs.len() && xs[j] == xs[i] {
+            j += 1;
+        }
+        out.push(format!("[{},{}]", xs[i], j - i));
+        i = j;
+    }
+    format!("[{}]", out.join(","))
+}
+
+/// One large case; returns (coq term, json, key, family).
+fn big_case(r: &mut Rng, threads: usize, panics: &mut usize, hangs: &mut usize) -> (String, String, String, String) {
+    let k = r.range(2, 6) as usize;
+    match r.below(8) {
+        0..=3 => {
+            let n = big_n(r);
+            let (fam, rows) = big_rows(r, n);
+            let n = rows.len();
+            let (pfam, p) = big_partition(r, n, k);
+            let vw = big_vweights(r, n);
+            let (rows2, p2, vw2) = (rows.clone(), p.clone(), vw.clone());
+            let res = guarded(threads, Duration::from_secs(120), move || run_graph(&rows2, 0, &p2, &vw2));
+            let (coq_o, json_o) = coq_graph_obs(&res, panics, hangs);
+            let coq = format!(
+                "CBigGraph {} {} {} {}",
+                coq_offset_rows(&rows),
+                coq_natlist(p.iter().cloned()),
+                coq_zlist(vw.iter().map(|x| *x as i128)),
+                coq_o
+            );
+            let pz: Vec<i64> = p.iter().map(|x| *x as i64).collect();
+            let json = format!(
+                "{{\"kind\":\"big_graph\",\"family\":\"{}\",\"n\":{},\"entries\":{},\"threads\":{},\"partition_family\":\"{}\",\"partition_rle\":{},\"impl\":{},\"note\":\"rows are regenerated from the seed: rerun with --only <index>\"}}",
+                fam, n, rows.iter().map(|x| x.len()).sum::<usize>(), threads, pfam, json_rle(&pz), json_o
+            );
+            let key = format!("bg|{}|{}|{}|{:?}", fam, n, pfam, &p[..p.len().min(40)]);
+            (coq, json, key, fam)
+        }
+        4 | 5 => {
+            let dims: Vec<usize> = if r.chance(2, 3) {
+                let (w, h) = *r.pick(&BIG_WH);
+                vec![w, h]
+            } else {
+                let (w, h, d) = *r.pick(&BIG_WHD);
+                vec![w, h, d]
+            };
+            let n: usize = dims.iter().product();
+            let lat = lattice_rows_fast(&dims);
+            let (pfam, p) = big_partition(r, n, k);
+            let vw = big_vweights(r, n);
+            let (d2, l2, p2, vw2) = (dims.clone(), lat.clone(), p.clone(), vw.clone());
+            let res = guarded(threads, Duration::from_secs(120), move || run_grid(&d2, &l2, &p2, &vw2));
+            let (coq_o, json_o) = match &res {
+                Guarded::Done(o) => (
+                    format!(
+                        "(mkBG {} {} {} {} {} {} {} {})",
+                        match &o.rows {
+                            None => "OPanic".to_string(),
+                            Some(rs) => format!(
+                                "(OVal [{}])",
+                                rs.iter()
+                                    .enumerate()
+                                    .map(|(v, x)| coq_zlist(x.iter().map(|u| *u as i128 - v as i128)))
+                                    .collect::<Vec<_>>()
+                                    .join(";\n")
+                            ),
+                        },
+                        o1(&o.cut),
+                        o1(&o.lam),
+                        o1(&o.csr_cut),
+                        o1(&o.csr_lam),
+                        o1(&o.gen_cut),
+                        o1(&o.gen_lam),
+                        o1f(&o.cut_f)
+                    ),
+                    format!(
+                        "{{\"grid_cut\":{},\"grid_lambda\":{},\"csr_cut\":{},\"csr_lambda\":{},\"gen_cut\":{},\"gen_lambda\":{},\"grid_cut_f64\":{}}}",
+                        json_opt(&Some(o.cut)),
+                        json_opt(&Some(o.lam)),
+                        json_opt(&Some(o.csr_cut)),
+                        json_opt(&Some(o.csr_lam)),
+                        json_opt(&Some(o.gen_cut)),
+                        json_opt(&Some(o.gen_lam)),
+                        json_opt(&Some(o.cut_f))
+                    ),
+                ),
+                Guarded::Panic(m) => {
+                    *panics += 1;
+                    (
+                        "(mkBG OPanic OPanic OPanic OPanic OPanic OPanic OPanic OPanic)".to_string(),
+                        format!("{{\"panic\":{}}}", json_str(m)),
+                    )
+                }
+                Guarded::Hang => {
+                    *hangs += 1;
+                    (
+                        "(mkBG OHang OHang OHang OHang OHang OHang OHang OHang)".to_string(),
+                        "{\"hang\":true}".to_string(),
+                    )
+                }
+            };
+            let coq = format!(
+                "CBigGrid {} {} {} {} {}",
+                coq_natlist(dims.iter().cloned()),
+                coq_offset_rows(&lat),
+                coq_natlist(p.iter().cloned()),
+                coq_zlist(vw.iter().map(|x| *x as i128)),
+                coq_o
+            );
+            let pz: Vec<i64> = p.iter().map(|x| *x as i64).collect();
+            let json = format!(
+                "{{\"kind\":\"big_grid\",\"dims\":{},\"threads\":{},\"partition_family\":\"{}\",\"partition_rle\":{},\"impl\":{}}}",
+                json_usizes(&dims), threads, pfam, json_rle(&pz), json_o
+            );
+            let key = format!("br|{:?}|{}|{:?}", dims, pfam, &p[..p.len().min(40)]);
+            (coq, json, key, format!("big_grid{}d", dims.len()))
+        }
+        _ => {
+            // large weight arrays for compute_parts_load / imbalance / max_imbalance
+            let n = big_n(r);
+            let (pfam, p) = big_partition(r, n, k);
+            let (name, ws): (&str, Vec<i64>) = match r.below(5) {
+                0 => ("big_load_ones", vec![1; n]),
+                1 => ("big_load_boundary_spikes", (0..n).map(|v| if BOUNDARIES.contains(&v) { 1 << 20 } else { 0 }).collect()),
+                2 => ("big_load_index", (0..n).map(|v| v as i64).collect()),
+                3 => ("big_load_random", (0..n).map(|_| r.range(0, 1 << 30)).collect()),
+                _ => ("big_load_signed", (0..n).map(|_| r.range(-1000, 1000)).collect()),
+            };
+            let targets: Vec<i64> = (0..k).map(|_| r.range(0, 1 << 20)).collect();
+            let (p2, ws2, t2) = (p.clone(), ws.clone(), targets.clone());
+            let res = guarded(threads, Duration::from_secs(120), move || run_load(k, &p2, &ws2, &t2));
+            let (coq_o, json_o) = coq_load_obs(&res, panics, hangs);
+            let depth = (usize::BITS - threads.leading_zeros()) as usize + 3;
+            let coq = format!(
+                "CLoad {} {} {} {} {} {}",
+                depth,
+                k,
+                coq_natlist(p.iter().cloned()),
+                coq_zlist(ws.iter().map(|x| *x as i128)),
+                coq_zlist(targets.iter().map(|x| *x as i128)),
+                coq_o
+            );
+            let pz: Vec<i64> = p.iter().map(|x| *x as i64).collect();
+            let json = format!(
+                "{{\"kind\":\"big_load\",\"n\":{},\"threads\":{},\"num_parts\":{},\"partition_family\":\"{}\",\"partition_rle\":{},\"weights_rle\":{},\"targets\":{},\"impl\":{}}}",
+                n, threads, k, pfam, json_rle(&pz), json_rle(&ws), json_i64s(&targets), json_o
+            );
+            let key = format!("bl|{}|{}|{}|{}|{:?}", name, n, k, pfam, &ws[..ws.len().min(40)]);
+            (coq, json, key, name.to_string())
+        }
+    }
+}
+
+fn coq_load_obs(res: &Guarded<LoadObs>, panics: &mut usize, hangs: &mut usize) -> (String, String) {
+    match res {
+        Guarded::Done(o) => (
+            format!(
+                "(mkLO {} {} {} {} {} {} {})",
+                ozs(&o.loads),
+                ofzs(&o.loads_f),
+                obits(&o.imb),
+                obits(&o.imb_f),
+                o1(&o.max),
+                o1f(&o.max_f),
+                o1(&o.target)
+            ),
+            format!(
+                "{{\"loads\":{},\"loads_f64\":{},\"imbalance\":{},\"imbalance_bits\":{},\"imbalance_f64w_bits\":{},\"max_imbalance\":{},\"max_imbalance_f64\":{},\"imbalance_target\":{}}}",
+                json_opt(&Some(o.loads.clone())),
+                json_opt(&Some(o.loads_f.clone())),
+                json_opt(&Some(o.imb)),
+                json_opt(&Some(o.imb.map(|x| x.to_bits()))),
+                json_opt(&Some(o.imb_f.map(|x| x.to_bits()))),
+                json_opt(&Some(o.max)),
+                json_opt(&Some(o.max_f)),
+                json_opt(&Some(o.target))
+            ),
+        ),
+        Guarded::Panic(m) => {
+            *panics += 1;
+            (
+                "(mkLO OPanic OPanic OPanic OPanic OPanic OPanic OPanic)".to_string(),
+                format!("{{\"panic\":{}}}", json_str(m)),
+            )
+        }
+        Guarded::Hang => {
+            *hangs += 1;
+            (
+                "(mkLO OHang OHang OHang OHang OHang OHang OHang)".to_string(),
+                "{\"hang\":true}".to_string(),
+            )
+        }
+    }
+}
+
 fn main() {
     let a = parse_args();
     quiet_panics();
@@ -527,6 +967,7 @@ fn main() {
     );
     let mut hangs = 0usize;
     let mut panics = 0usize;
+    let big_period = if big { 50 } else { 60 };
     for idx in 0..a.cases {
         let mut r = rng.fork();
         if let Some(o) = a.only {
@@ -535,6 +976,15 @@ fn main() {
             }
         }
         let threads = idx % 16 + 1;
+        // one LARGE case per shard (quick: every 60th case, thorough: every 50th)
+        if idx % big_period == big_period - 1 {
+            let (coq, json, key, fam) = big_case(&mut r, threads, &mut panics, &mut hangs);
+            w.push(coq, json, &key, true, &fam);
+            if hangs > 3 {
+                break;
+            }
+            continue;
+        }
         let kind = r.below(10);
         if kind < 5 {
             // ---------------------------------------------- graph case
